@@ -291,9 +291,33 @@ func propOps(t *rapid.T, prop string) {
 		dropped[util.DroppedCollectionKey] = map[string]uint64{dk: ts + 1}
 		liveColls = liveColls[:1]
 	}
+	// a listed partition that is neither recorded (created / dropped) nor present downstream - its create event has not been
+	// replayed yet: it is not "already dropped", so it must not be removed from the list; the op is not ready
+	unknownPart := ""
+	if (kind == "LoadPartitions" || kind == "ReleasePartitions") && len(liveParts) > 0 && !failDownstream && rapid.IntRange(0, 7).Draw(t, "unknownPartition") == 0 {
+		unknownPart = liveParts[rapid.IntRange(0, len(liveParts)-1).Draw(t, "whichUnknown")]
+		h.Behave = func(c *handler.Call) error {
+			if c.Method == "DescribePartition" && c.Partition == unknownPart {
+				return fmt.Errorf("partition not found[partition=%s]", unknownPart)
+			}
+			return nil
+		}
+	}
 	w, _ := newWriter(h, replicateID, dropped, mapping)
 	out := runOp(h, w, oc.pack(rapid.Bool().Draw(t, "twoEndPositions")))
 	mut := mutating(out.calls)
+	if unknownPart != "" {
+		if len(mut) != 0 || out.err == nil {
+			t.Fatalf("%s op %s lists partition %q which is neither dropped nor present downstream yet: it must fail as not ready without a request, got requests %v (partitions %v) err %v",
+				what, kind, unknownPart, methods(mut), partsOf(mut), out.err)
+		}
+		sc.Class("op:" + kind)
+		sc.Class("unknown-list-member(not ready)")
+		sc.NonTrivial(true)
+		sc.Fingerprint(fmt.Sprint("unknownpart", kind, srcDB, coll, sortedKeys(mapping), ts, oc.parts, unknownPart, dropped))
+		sc.Done()
+		return
+	}
 	expectCall := true
 	if kind == "Flush" {
 		// a flush whose live collections map into different target databases cannot be one request: the writer rejects it
@@ -450,3 +474,17 @@ var _ = msgpb.MsgPosition{}
 
 func TestC09(t *testing.T) { rapid.Check(t, func(t *rapid.T) { propOps(t, "C09") }) }
 func TestC20(t *testing.T) { rapid.Check(t, func(t *rapid.T) { propOps(t, "C20") }) }
+
+// partsOf lists the partition names of load / release partition requests (for messages).
+func partsOf(calls []*handler.Call) [][]string {
+	var out [][]string
+	for _, c := range calls {
+		switch r := c.Req.(type) {
+		case *milvuspb.LoadPartitionsRequest:
+			out = append(out, r.GetPartitionNames())
+		case *milvuspb.ReleasePartitionsRequest:
+			out = append(out, r.GetPartitionNames())
+		}
+	}
+	return out
+}
